@@ -162,7 +162,7 @@ func (p *parser) item() *node {
 		p.i++
 		p.eat(':')
 		return &node{kind: 'V', ok: f == '1', bs: hx.UnHex(p.span(isHex))}
-	case 'E', 'T', 'P':
+	case 'E', 'T', 'P', 'Q':
 		return &node{kind: c}
 	}
 	panic("c22: bad item")
@@ -275,6 +275,9 @@ func run(tr *tracker, b, parent *cryptobyte.Builder, items []*node) {
 		case 'T':
 			panic(cryptobyte.BuildError{Err: errors.New("thrown")})
 		case 'P':
+			parent.AddUint8(0)
+		case 'Q': // SetError on the parent, then a write to it: ignored, not a panic
+			parent.SetError(errors.New("parent"))
 			parent.AddUint8(0)
 		}
 	}
@@ -703,6 +706,10 @@ func (x *G) leaf() *node {
 
 func (x *G) container(body []*node) *node {
 	r := x.r
+	if x.misuse && r.Chance(1, 8) {
+		x.g.Stat("misuse.parent-seterr-then-write")
+		body = append(body, &node{kind: 'Q'})
+	}
 	if r.Chance(2, 5) {
 		t := hx.Pick(r, tags)
 		if r.Chance(1, 40) {
@@ -1134,7 +1141,7 @@ func features(prog []*node, kind string, pre bool, extra string) []string {
 				set["unwrite"] = true
 			case 'V':
 				set["value"] = true
-			case 'E', 'T', 'P':
+			case 'E', 'T', 'P', 'Q':
 				set["misuse"] = true
 			case 'b':
 				if len(nd.bs) == 0 {
